@@ -467,7 +467,7 @@ def run_cfg(chk, facts, cfg):
     # state-only front-ends (no interval): the final state must be (n0 + N, k0 + K)
     N0, K0 = T.sym('n0'), T.sym('k0')
     for label, fn, names, args, start in (
-            ('FromIterator<bool>', facts.trait_method('core::iter::FromIterator', 'proportion::Stats', 'from_iter'), ['iter'], [None], (T.mk_int(0), T.mk_int(0))),
+            ('FromIterator<bool>', facts.trait_method('core::iter::FromIterator', 'proportion::Stats', 'from_iter', trait_args=['bool']), ['iter'], [None], (T.mk_int(0), T.mk_int(0))),
             ('Stats::extend', facts.inherent('proportion::Stats', 'extend'), ['self', 'data'], [by_ref(stats_state(N0, K0)), None], (N0, K0)),
             ('Stats::extend_if', facts.inherent('proportion::Stats', 'extend_if'), ['self', 'data', 'pred'], [by_ref(stats_state(N0, K0)), None, None], (N0, K0))):
         if not chk.anchor(label + sfx, fn):
